@@ -28,6 +28,7 @@ type RunCfg struct {
 	Ledger     bool           `json:"ledger"`
 	PoolAny    bool           `json:"pool_any"`
 	TimerRace  bool           `json:"timer_race"`
+	SymRand    bool           `json:"sym_rand"`
 	OpaqueMake bool           `json:"opaque_make"`
 	Reach      []string       `json:"reach"`       // markers that must be reached
 	ExpectViol []string       `json:"expect_viol"` // labels (prefix) that must be violated (twins)
